@@ -82,7 +82,7 @@ CHECKS = {
     "C06": dict(
         level="model_checking",
         clauses=GEN_CLAUSES_SPEC | {"errclass"},
-        phases=dict(quick=[dict(profile="join2"), dict(profile="joins3"), dict(profile="joinh4")],
+        phases=dict(quick=[dict(kind="flatjoin", pre=2), dict(profile="join2"), dict(profile="joins3"), dict(profile="joinh4")],
                     thorough=[dict(profile="join2"), dict(profile="join3"), dict(profile="joins4"), dict(profile="joinh4")]),
     ),
     "C07": dict(
@@ -93,8 +93,8 @@ CHECKS = {
     "C08": dict(
         level="model_checking",
         clauses=SUBQ | {"rows", "order", "names", "export-error", "accept", "flat-correct"}, backends={"sqlite"},
-        phases=dict(quick=[dict(kind="flat", depth=5), dict(kind="flat", depth=3, paths=True), dict(profile="gsub4"), dict(profile="subq4"), dict(profile="wins3"), dict(profile="agg3"), dict(profile="joins3"), dict(profile="union2")],
-                    thorough=[dict(kind="flat", depth=6, srcs=[1, 6, 7], timeout=1800), dict(kind="flat", depth=4, paths=True), dict(profile="wins4"), dict(profile="agg3"), dict(profile="win3"),
+        phases=dict(quick=[dict(kind="flat", depth=5), dict(kind="flat", depth=3, paths=True), dict(kind="flatjoin", pre=2), dict(profile="gsub4"), dict(profile="subq4"), dict(profile="wins3"), dict(profile="agg3"), dict(profile="joins3"), dict(profile="union2")],
+                    thorough=[dict(kind="flat", depth=6, srcs=[1, 6, 7], timeout=1800), dict(kind="flat", depth=4, paths=True), dict(kind="flatjoin", pre=3), dict(profile="wins4"), dict(profile="agg3"), dict(profile="win3"),
                               dict(profile="joins4"), dict(profile="union3")]),
     ),
     "C02": dict(
@@ -238,7 +238,8 @@ MANIFEST_TEXT = {
     "C06": dict(
         text="TLC enumerates two-table behaviours (a preparatory verb on either side, every join kind / predicate shape / suffix mode, verbs and "
              "reachability probes through original references on the result); the specification defines the result as the comprehension over "
-             "row pairs plus padding and the documented suffix rule, compared with both back ends.",
+             "row pairs plus padding and the documented suffix rule, compared with both back ends. Design level (MC_SqlFlatJoin.tla): TLC compares the "
+             "merged SELECT of two pending accumulators with the sequential join for every accepted combination and each counterexample is replayed.",
         note=TRUST, technique="TLA+ spec + TLC exhaustive generation, replay on real code against predicted observations"),
     "C07": dict(
         text="TLC enumerates unions of tables with permuted columns, hidden columns, duplicates, empty sides, type-widening and rejected "
@@ -247,7 +248,8 @@ MANIFEST_TEXT = {
     "C08": dict(
         text="For every TLC-generated pipeline on SQLite: an accepted pipeline must equal the specification's sequential meaning; a refusal must be "
              "SubqueryError raised by the verb call; re-running with alias() directly before the refused verb must be accepted and correct; "
-             "pipelines of the never-needs class must not be refused; Polars never raises it.",
+             "pipelines of the never-needs class must not be refused; Polars never raises it. Design level: SqlFlat / MC_SqlFlatJoin transcribe "
+             "Cache.requires_subquery and TLC checks that every accepted verb / join leaves the flattened SELECT equal to the sequential meaning.",
         note=TRUST, technique="TLA+ spec + TLC exhaustive generation, replay on real code against predicted observations; alias-retry protocol"),
     "C09": dict(
         text="TLC enumerates histories (rename swaps, renames onto hidden names, overwriting mutate, re-created names, joins with suffixing, "
